@@ -289,6 +289,8 @@ pub struct Inner {
     pub fair: bool,
     pub rng: Rng,
     pub replay_pos: usize,
+    /// the last choice came from the recorded schedule (not from past its end)
+    pub replay_live: bool,
     pub gates: Vec<bool>,
     pub events: Vec<Event>,
     pub fp: u64,
@@ -475,12 +477,14 @@ impl Inner {
             if self.replay_pos < rp.len() {
                 let want = rp[self.replay_pos].0 as usize;
                 self.replay_pos += 1;
+                self.replay_live = true;
                 if enabled.contains(&want) {
                     return want;
                 }
                 return enabled[0];
             }
             // past the end of the recorded schedule: run to block, lowest first
+            self.replay_live = false;
             if let Some(c) = cur {
                 if enabled.contains(&c) {
                     return c;
@@ -540,7 +544,7 @@ impl Inner {
         if let Some(rp) = &self.cfg.replay {
             // the refusal bit belongs to the entry just consumed
             let p = self.replay_pos;
-            return p > 0 && p <= rp.len() && rp[p - 1].1;
+            return self.replay_live && p > 0 && p <= rp.len() && rp[p - 1].1;
         }
         let pct = self.cfg.faults.try_refuse_pct;
         pct > 0 && self.rng.chance(pct as u32, 100)
@@ -736,6 +740,7 @@ impl Sched {
                 fair: false,
                 rng,
                 replay_pos: 0,
+                replay_live: false,
                 gates: vec![false; ngates],
                 events: Vec::new(),
                 fp: FNV0,
